@@ -258,6 +258,7 @@ def run_history(h: "AsyncHarness", history, wd=None, on_boundary=None, eps0=0, f
                 jax.effects_barrier()
                 try:
                     rec = g.get_record()
+                    cur["record_raw"] = rec
                     cur["record"] = project_record(rec, h.cfg)
                 except TypeError as e:  # connection that consumed nothing (outside the properties)
                     cur["record_error"] = str(e)
